@@ -97,6 +97,8 @@ def run(ctx):
         "the model's LIR of the real MIR gives the Spec's value on every tuple (c01 lirrun), and the differential run of the real JIT",
         "the `char` class representatives encode a char as its code point (u32 with == / != only) for the Spec and the harness interpreter; "
         "the Roto source the compiler sees uses `char` and character literals",
+        "the `for` class representatives: Model/Spec has no lists; the oracle is the Spec on the unrolling of a loop over a list LITERAL "
+        "(elements evaluated once, in order, before the first iteration; one scope per element) — this project's reading of the manual",
         "the abstract CFG of Model/Dce.lean stands for mir::Item.blocks; its tie is the translator target `dce` plus running "
         "Dce.dce on the real pre-DCE CFG of every generated program (hook verif_hooks::c01::cfgs)",
     ]
@@ -109,7 +111,7 @@ def run(ctx):
              "guarded or not, on the built-in Option and user enums x every combination of guard outcomes x every variant; float — 66 nested "
              "unary/binary operator shapes on f32/f64 x boundary operand pairs (+-0, +-1, +-inf, NaN, subnormals, MAX, equal operands); char — 17 "
              "shapes of == / != on characters (helpers, literals, variables, parameters, if-else values, loop conditions) over code points that differ in the "
-             "low byte / above it / above 16 bits x 90 selector tuples, and 7 programs with char parameters / results called on every pair / triple of 14 boundary code points. "
+             "low byte / above it / above 16 bits x 90 selector tuples, and 7 programs with char parameters / results called on every pair / triple of 14 boundary code points; for — 13 shapes of `for x in [..] { .. }` over list literals (the Spec runs the language-defined unrolling) x 216 i32 boundary triples. "
              "operator table: every (operator, type) x boundary^2 + random operands, JIT vs Spec; programs: type-directed "
              "generator (helpers, (mutual) recursion, while, if/else, early return, compound assignment, shadowing, dead code; every other "
              "program declares enum types with 2..5 variants and matches on them: arm shapes incl. one variant + `_`, guards, nested) x 30 "
